@@ -8,6 +8,7 @@ PID = "C19"
 LEVEL = "other"
 CRATES = ["rlib_tensor"]
 RELEASE = True
+DEPENDS = ["C08", "C09"]   # the property's read/write clauses run through these packs' code (rules reported as <PID>.<rule>)
 ARMED = True
 ENGINES = ["E1", "E3", "E4a", "E9"]
 TECHNIQUE = "term-flow abstract interpretation of the flattening loop (loop-body transfer terms and entailed bound fact per dimension), who-may-index rule on the data vector, construction-site assertion facts, field-coverage of PartialEq, compile-fail rank witnesses"
